@@ -265,9 +265,9 @@ def main():
 
     common.import_repo()
 
-    # optional second gate of a property module (C10: effect model regenerated from the source; C01/C02/C03/C08/C09/C15:
-    # decision tables regenerated from the source, harness/dectables.py); it runs in a child
-    # process while the cases are generated and judged
+    # optional second gate of a property module (C10: effect model regenerated from the source; C04: metric definitions
+    # regenerated from the source; C01/C02/C03/C08/C09/C15: decision tables regenerated from the source, harness/dectables.py);
+    # it runs in a child process while the cases are generated and judged
     extra_handle = None
     if hasattr(mod, "extra_gate_start") and gate["build_ok"]:
         try:
@@ -352,14 +352,14 @@ def main():
     search_note = ""
     if not viol_prop and (viol_dis or gate["problems"]):
         # correspondence or proof obligation broken without a failing input in hand: search
-        extra = run_generated(pid, seed + 7919, "thorough" if tier == "quick" else "thorough",
-                              min(mod.n_cases("thorough"), max(4 * n, 400)), start=10**6,
-                              procs=a.procs)
-        for i in extra["issues"]:
+        more = run_generated(pid, seed + 7919, "thorough" if tier == "quick" else "thorough",
+                             min(mod.n_cases("thorough"), max(4 * n, 400)), start=10**6,
+                             procs=a.procs)
+        for i in more["issues"]:
             if i["kind"] == "PROPFAIL" and common.match_known(
                     pid, Issue(i["kind"], i["clause"], i["detail"], i["signature"])) is None:
                 viol_prop.append(i)
-        search_note = f"searched {extra['n']} further cases"
+        search_note = f"searched {more['n']} further cases"
 
     for sig, (k, cnt) in known_printed.items():
         print(f"KNOWN-FINDING: property={pid} {k['what']} (signature {sig}; {cnt} cases this run)")
@@ -371,10 +371,12 @@ def main():
         first = viol_prop[0]
         first = dict(first)
         first["inp"] = shrink(pid, first)
-        replay_path = write_replay(pid, first)
+        replay_path = write_replay(pid, first, {"gate_problems": gate["problems"]} if gate["problems"] else None)
         violations = len(viol_prop)
         for i in viol_prop[:5]:
             print(f"PROPFAIL clause={i['clause']} signature={i['signature']} {i['detail'][:300]}")
+        for p in gate["problems"][:5]:      # a broken proof obligation that now has a failing input: still name it
+            print(f"LEAN-GATE {p}")
         print(f"VIOLATION property={pid} replay={replay_path}")
         status = 1
     elif viol_dis or gate["problems"]:
